@@ -1,7 +1,7 @@
 #!/bin/bash
 # tools/try_harmless.sh <worktree> <name> <property>... -- a behaviour-preserving rewrite (sub-agent, worktree with
 # _seed/patch.diff, notes.md, equiv.py): run the given quick checks against it; expected: exit 0 everywhere
-# (TIE-FALLBACK lines allowed).  Results are kept under harmless/<name>/.
+# (TIE-FALLBACK lines allowed); runs with SKGVERIF_SECOND_TIE=1 (accept an agreeing second tie) unless set otherwise.  Results are kept under harmless/<name>/.
 set -u
 wt=$1; name=$2; shift 2
 cd "$(dirname "$0")/.."
@@ -10,7 +10,7 @@ cp $wt/_seed/patch.diff $out/ 2>/dev/null; cp $wt/_seed/notes.md $out/agent_note
 : > $out/results.txt
 for prop in "$@"; do
   for seed in ${SEEDS:-0 1}; do
-    res=$(SKGSTAT_REPO=$wt VERIF_SEED=$seed ./check $prop 2>&1); rc=$?
+    res=$(SKGVERIF_SECOND_TIE=${SKGVERIF_SECOND_TIE:-1} SKGSTAT_REPO=$wt VERIF_SEED=$seed ./check $prop 2>&1); rc=$?
     echo "$prop seed=$seed rc=$rc $(echo "$res" | grep -c '^VIOLATION') violation(s) $(echo "$res" | grep -c '^TIE-FALLBACK') fallback" | tee -a $out/results.txt
     [ $rc -ne 0 ] && echo "$res" | grep -v "^KNOWN\|WARNING" | cut -c1-500 | tail -5 | tee -a $out/results.txt
   done
